@@ -225,3 +225,60 @@ Proof.
         (conj (empty_columns_iff mrxmr ncols u w) (empty_strand_rows_iff us ws))).
 Qed.
 Print Assumptions C09_gen_criterion_is_model.
+
+(* ------------------------------------------------------------------------------------ *)
+(* DERIVED multiple-response items ("MR insertions": elements flagged derived, anchored top /
+   bottom / before / after another item).  They are base elements: C09_visible_iff above already
+   quantifies over them ([d_elems d] contains them, for every ordering).  Restated for them alone,
+   because under an EXPLICIT order the collator (and the model) does not list them with the other
+   base elements but positions them through a separate list (_derived_element_orderings,
+   [derived_floats]) - a filter applied to the base-element orderings only would let them through. *)
+From CC Require Import Proofs.OrderDerived.
+Local Close Scope Q_scope.
+Local Open Scope nat_scope.
+
+Theorem C09_derived_positioned_separately d listed i :
+  NoDup (d_ids d) ->
+  i < List.length (d_elems d) /\ e_derived (nth i (d_elems d) dflt_elem) = true ->
+  ~ In i (map fst (desc_of d (OExplicit listed)))
+  /\ In (Z.of_nat i) (map fst (derived_floats d)).
+Proof. exact (derived_positioned_separately d listed i). Qed.
+Print Assumptions C09_derived_positioned_separately.
+
+Theorem C09_derived_explicit_visible_iff d listed empties psub order i :
+  NoDup (d_ids d) ->
+  i < List.length (d_elems d) /\ e_derived (nth i (d_elems d) dflt_elem) = true ->
+  display_order d (ByAnchor (OExplicit listed)) empties psub = Ok order ->
+  (In (Z.of_nat i) order <->
+   ~ In i (hidden_idxs d) /\ ~ (d_prune d = true /\ In i empties)).
+Proof. exact (derived_explicit_visible_iff d listed empties psub order i). Qed.
+Print Assumptions C09_derived_explicit_visible_iff.
+
+Theorem C09_derived_visible_iff d o empties psub order i :
+  NoDup (d_ids d) -> values_fit d o ->
+  i < List.length (d_elems d) /\ e_derived (nth i (d_elems d) dflt_elem) = true ->
+  display_order d o empties psub = Ok order ->
+  (In (Z.of_nat i) order <->
+   ~ In i (hidden_idxs d) /\ ~ (d_prune d = true /\ In i empties)).
+Proof. exact (derived_visible_iff d o empties psub order i). Qed.
+Print Assumptions C09_derived_visible_iff.
+
+(* non-vacuity: items "ab" (derived, top), a, b, c, "cd" (derived, after c), explicit order c, a.
+   Nothing hidden: ab c cd a b.  "cd" hidden by its flag: ab c a b.  "ab" hidden, c and "cd"
+   answered by nobody and rows pruned: a b; without prune: c cd a b. *)
+Example C09_derived_example :
+  let dd prune hides :=
+    Collator.mkDim [mkElem (IStr "ab"%string) true DTop; mkElem (IStr "a"%string) false DNone;
+           mkElem (IStr "b"%string) false DNone; mkElem (IStr "c"%string) false DNone;
+           mkElem (IStr "cd"%string) true (DRel false (IStr "c"%string))]
+          true [] None hides prune in
+  let o := ByAnchor (OExplicit [IStr "c"%string; IStr "a"%string]) in
+  NoDup (d_ids (dd false [])) /\
+  display_order (dd false []) o [] false = Ok [0; 3; 4; 1; 2]%Z /\
+  display_order (dd false [(IStr "cd"%string, HTrue)]) o [] false = Ok [0; 3; 1; 2]%Z /\
+  display_order (dd true [(IStr "ab"%string, HTrue)]) o [3; 4] false = Ok [1; 2]%Z /\
+  display_order (dd false [(IStr "ab"%string, HTrue)]) o [3; 4] false = Ok [3; 4; 1; 2]%Z.
+Proof.
+  cbv zeta. split; [|repeat split; vm_compute; reflexivity].
+  repeat constructor; simpl; intuition discriminate.
+Qed.
